@@ -39,8 +39,7 @@ def plan(tier, seed):
         cases.append({"kind": "shipped", "seed": seed, "k": k})
     for k in range(6 if tier == "quick" else 80):
         cases.append({"kind": "multi", "seed": seed, "k": k})
-    if tier == "thorough":
-        cases.append({"kind": "na10860"})
+    cases.insert(0, {"kind": "na10860"})  # (first: it is the longest single case)
     return cases
 
 
